@@ -599,6 +599,7 @@ type FuncContract struct {
 	Ensures  []*Clause
 	Invs     []*Clause
 	Marks    []*Clause
+	Records  []string  // ghost variables that log the calls of this function (`records G = e`)
 	Asserts  []*Clause // assert [label] at "source text" expr: checked after the statement on that line
 	Modifies []string  // declared frame (heap names / ghost vars); nil = computed
 	HasMod   bool
@@ -830,6 +831,21 @@ func (cs *ContractSet) ParseContractText(file string, pkgPath string, lines []st
 					return err
 				}
 				cur.Marks = append(cur.Marks, c)
+			case "records":
+				// records G = e: every call of this function is logged in the ghost variable G (a call
+				// log has no counterpart in the code, so the clause is definitional: callers see G
+				// change to e — evaluated over the pre-state — and nothing else changes G)
+				eq := strings.Index(rest, "=")
+				if eq < 0 {
+					return errf("records needs `G = expr`")
+				}
+				g := strings.TrimSpace(rest[:eq])
+				c, err := mkClause("marks", g+" == ("+strings.TrimSpace(rest[eq+1:])+")")
+				if err != nil {
+					return err
+				}
+				cur.Marks = append(cur.Marks, c)
+				cur.Records = append(cur.Records, g)
 			case "loop":
 				nstr, r2 := splitFirst(rest)
 				n, err := strconv.Atoi(nstr)
